@@ -46,38 +46,132 @@ Not applicable: that the position lies in the first malformed assignment (nom's 
                         &format!("Display prints `{}`; the structured report and contextualize() use report_data.{} as is — the three renderings must show the same {}", a, which, which));
                 }
             }
-            ctx.oblige("C17.path", "display-prints-file", true);
-            let b = tok(&f.block);
-            if !b.contains("if let Some(file_name)=report_data.src_file.as_ref()") {
-                ctx.violate("C17.path", "display-prints-file", &f.file, f.line, "Display must mention the source file when the report carries one");
+            // Display evaluated: the text carries the report's line and column, and the file when there is one
+            {
+                use crate::eval::{Env, Evaluator, Val};
+                use std::collections::BTreeMap as Map;
+                let consts = const_resolver(m);
+                let hook = |_: &Evaluator, _: &str, _: &[Val]| -> Option<Result<Val, String>> { None };
+                let ev = Evaluator { consts: &consts, call_hook: &hook, inline: None };
+                for file in [None, Some("dir/x.asn")] {
+                    ctx.oblige("C17.path", &format!("display:file={}", file.is_some()), true);
+                    let mut rd = Map::new();
+                    rd.insert("line".to_string(), Val::int(17));
+                    rd.insert("column".to_string(), Val::int(4));
+                    rd.insert("offset".to_string(), Val::int(321));
+                    rd.insert("context_start_line".to_string(), Val::int(12));
+                    rd.insert("context_start_offset".to_string(), Val::int(250));
+                    rd.insert("src_file".to_string(), file.map(|x| Val::some(Val::Str(x.into()))).unwrap_or(Val::none()));
+                    let mut me = Map::new();
+                    me.insert("kind".to_string(), Val::Ctor("MatchingError".into(), vec![Val::Ctor("ReportData".into(), vec![], rd)], Map::new()));
+                    let mut env = Env::new();
+                    env.insert("self".into(), Val::Ctor("LexerError".into(), vec![], me));
+                    env.insert("f".into(), Val::Opaque("formatter".into()));
+                    env.insert("$out".into(), Val::Str(String::new()));
+                    match ev.eval_fn_body(&f.block, &mut env) {
+                        Ok(_) => {
+                            let out = match env.get("$out") { Some(Val::Str(t)) => t.clone(), _ => String::new() };
+                            let pos_ok = out.contains("17:4") || out.contains("line 17, column 4");
+                            if !pos_ok {
+                                ctx.violate("C17.same", "display-line", &f.file, f.line, &format!("Display of an error at line 17 column 4 prints `{}`: the structured report, Display and contextualize() show the same position", out));
+                            }
+                            if file.is_some() != out.contains("dir/x.asn") {
+                                ctx.violate("C17.path", "display-prints-file", &f.file, f.line, &format!("Display of an error {} prints `{}`: the source path is reported exactly when the input came from a file", if file.is_some() { "in dir/x.asn" } else { "in a literal" }, out));
+                            }
+                        }
+                        Err(e) => ctx.fail_closed("C17.path", &format!("[Display]: {}", e)),
+                    }
+                }
             }
         }
     }
+    // contextualize() is evaluated on a report whose context starts in the middle of a 12-line text: the header shows the
+    // report's line and column (and the file when there is one), every printed line carries its number in the *file*, and the
+    // FAILED AT THIS LINE marker stands on the reported line — which shows the text of that line
     if let Some(f) = anchor_fn(m, ctx, "C17.same", Some("LexerError"), "contextualize", None) {
-        let b = tok(&f.block);
-        for (key, needle, msg) in [
-            ("contextualize-line", "let line=report_data.line;", "contextualize() must take the failing line from report_data.line unchanged"),
-            ("contextualize-column", "let column=report_data.column;", "contextualize() must take the column from report_data.column unchanged"),
-            ("contextualize-marker", "if i+start_line==line{", "the FAILED AT THIS LINE marker must be placed on the line whose number equals report_data.line"),
-            ("contextualize-start", "let start_line=report_data.context_start_line;", "the first printed line number must be the context start line"),
-            ("contextualize-context", "&input[report_data.context_start_offset..]", "the excerpt must start at the context start offset"),
-        ] {
-            ctx.oblige("C17.same", key, true);
-            if !b.contains(needle) {
-                ctx.violate("C17.same", key, &f.file, f.line, msg);
+        use crate::eval::{Env, Evaluator, Val};
+        use std::collections::BTreeMap as Map;
+        let consts = const_resolver(m);
+        let helper = m.fns.iter().find(|g| g.name == "until_next_unindented" && g.module.starts_with("lexer"));
+        let hook = |ev: &Evaluator, name: &str, a: &[Val]| -> Option<Result<Val, String>> {
+            match name {
+                "until_next_unindented" => {
+                    let h = helper?;
+                    let ps: Vec<String> = h.sig.inputs.iter().filter_map(|x| match x { syn::FnArg::Typed(t) => Some(tok(&t.pat)), _ => None }).collect();
+                    let mut env = Env::new();
+                    for (p, v) in ps.iter().zip(a.iter()) {
+                        env.insert(p.clone(), v.clone());
+                    }
+                    Some(ev.eval_fn_body(&h.block, &mut env))
+                }
+                ".unwrap_or_default" if matches!(a.first(), Some(Val::Ctor(n, _, _)) if n == "None") => Some(Ok(Val::Str(String::new()))),
+                _ => None,
             }
-        }
-        // the header line shows the same line/column variables
-        let args = format_args_of(&f.block);
-        ctx.oblige("C17.same", "contextualize-header", true);
-        let hdr = b.contains(&model::norm_tokens("format!(\"Source file: {file_name}:{line}:{column}\")")) && b.contains(&model::norm_tokens("format!(\"line {line}, column {column}\")"));
-        if !hdr {
-            ctx.violate("C17.same", "contextualize-header", &f.file, f.line, "the header of contextualize() must show {line} and {column} (and the file when present)");
-        }
-        let _ = args;
-        ctx.oblige("C17.path", "contextualize-prints-file", true);
-        if !b.contains("if let Some(file_name)=report_data.src_file.as_ref()") {
-            ctx.violate("C17.path", "contextualize-prints-file", &f.file, f.line, "contextualize() must mention the source file when the report carries one");
+        };
+        let ev = Evaluator { consts: &consts, call_hook: &hook, inline: None };
+        let lines: Vec<String> = vec!["M DEFINITIONS ::= BEGIN".into(), "".into(), "A ::= INTEGER".into(), "B ::= BOOLEAN".into(), "".into(), "-- c".into(), "C ::= NULL".into(),
+            "Bad ::= SEQUENCE {".into(), "  a INTEGER,".into(), "  b § BOOLEAN".into(), "}".into(), "Next ::= NULL".into(), "END".into()];
+        let text = lines.join("\n") + "\n";
+        let offset_of_line = |n: usize| -> usize { lines.iter().take(n - 1).map(|l| l.len() + 1).sum() };
+        let param = f.sig.inputs.iter().filter_map(|a| match a { syn::FnArg::Typed(t) => Some(tok(&t.pat)), _ => None }).next().unwrap_or("input".into());
+        // the failing line has one digit while the excerpt reaches two-digit lines (labels are padded), and two digits
+        for (file, err_line) in [(None, 10usize), (Some("dir/x.asn"), 10), (None, 9), (Some("dir/x.asn"), 9)] {
+            let (ctx_line, err_col) = (8usize, 5usize);
+            let err_offset = offset_of_line(err_line) + err_col - 1;
+            let key = format!("contextualize:file={}:line={}", file.is_some(), err_line);
+            ctx.oblige("C17.same", &key, true);
+            let mut rd = Map::new();
+            rd.insert("line".to_string(), Val::int(err_line as i128));
+            rd.insert("column".to_string(), Val::int(err_col as i128));
+            rd.insert("offset".to_string(), Val::int(err_offset as i128));
+            rd.insert("context_start_line".to_string(), Val::int(ctx_line as i128));
+            rd.insert("context_start_offset".to_string(), Val::int(offset_of_line(ctx_line) as i128));
+            rd.insert("src_file".to_string(), file.map(|x| Val::some(Val::Str(x.into()))).unwrap_or(Val::none()));
+            rd.insert("reason".to_string(), Val::Str("reason".into()));
+            let mut me = Map::new();
+            me.insert("kind".to_string(), Val::Ctor("MatchingError".into(), vec![Val::Ctor("ReportData".into(), vec![], rd)], Map::new()));
+            let mut env = Env::new();
+            env.insert("self".into(), Val::Ctor("LexerError".into(), vec![], me));
+            env.insert(param.clone(), Val::Str(text.clone()));
+            match ev.eval_fn_body(&f.block, &mut env) {
+                Ok(Val::Str(out)) | Ok(Val::Sym(out)) => {
+                    let header_ok = match file {
+                        Some(fname) => out.contains(&format!("{}:{}:{}", fname, err_line, err_col)),
+                        None => out.contains(&format!("line {}, column {}", err_line, err_col)) || out.contains(&format!("{}:{}", err_line, err_col)),
+                    };
+                    if !header_ok {
+                        ctx.violate("C17.same", "contextualize-header", &f.file, f.line, &format!("contextualize() of an error at line {} column {}{} prints no header with that position: `{}`", err_line, err_col, file.map(|x| format!(" of {}", x)).unwrap_or_default(), out.lines().find(|l| l.contains("[")).unwrap_or("").trim()));
+                    }
+                    if file.is_some() && !out.contains("dir/x.asn") {
+                        ctx.violate("C17.path", "contextualize-prints-file", &f.file, f.line, "contextualize() must mention the source file when the report carries one");
+                    }
+                    // gutter labels: ` NN │  text`
+                    let mut labelled: Vec<(usize, String)> = vec![];
+                    for l in out.lines() {
+                        if let Some((lab, rest)) = l.split_once('│') {
+                            if let Ok(n) = lab.trim().parse::<usize>() {
+                                labelled.push((n, rest.to_string()));
+                            }
+                        }
+                    }
+                    let wrong: Vec<String> = labelled.iter().filter(|(n, t)| {
+                        let shown = t.split('◀').next().unwrap_or("").trim();
+                        lines.get(n - 1).map(|src| src.trim() != shown).unwrap_or(true)
+                    }).map(|(n, t)| format!("{} -> {:?}", n, t.trim())).collect();
+                    if !wrong.is_empty() {
+                        ctx.violate("C17.same", "contextualize-start", &f.file, f.line, &format!("contextualize() labels lines with numbers that are not their line numbers in the source: {:?} (the excerpt starts at line {})", wrong, ctx_line));
+                    }
+                    let marked: Vec<usize> = labelled.iter().filter(|(_, t)| t.contains("FAILED AT THIS LINE")).map(|(n, _)| *n).collect();
+                    if marked != vec![err_line] {
+                        ctx.violate("C17.same", "contextualize-marker", &f.file, f.line, &format!("the FAILED AT THIS LINE marker stands on the lines {:?}; the report says line {}", marked, err_line));
+                    }
+                    if labelled.iter().all(|(n, _)| *n != ctx_line) {
+                        ctx.violate("C17.same", "contextualize-context", &f.file, f.line, &format!("the excerpt does not start at the context start (line {}): printed lines {:?}", ctx_line, labelled.iter().map(|(n, _)| *n).collect::<Vec<_>>()));
+                    }
+                }
+                Ok(o) => ctx.fail_closed("C17.same", &format!("[{}]: {}", key, o.show().chars().take(120).collect::<String>())),
+                Err(e) => ctx.fail_closed("C17.same", &format!("[{}]: {}", key, e)),
+            }
         }
     }
     // ReportData::from copies the Input's position accessors
